@@ -1660,6 +1660,14 @@ class Entity(Instance):
         )
 
     def _entity_declaration(self) -> TextBlock:
+        # The entity name is part of the interface and cannot be changed. Instantiations
+        # use the declared name, the architecture the (possibly uniquified) name of the
+        # module scope. Both only match if the name is a valid, unused identifier.
+        scope_name = self._arch.entity_name()
+        assert (
+            scope_name == self._name
+        ), f"invalid entity name '{self._name}': not a valid VHDL identifier, reserved or already used by another entity (the architecture would refer to it as '{scope_name}')"
+
         return TextBlock(
             [
                 f"entity {self._name} is",
@@ -1967,6 +1975,17 @@ class Library(Instance):
             entities.add(parent_entity)
 
         collect_subenties(top_entity)
+
+        # entity names are part of the interface and cannot be uniquified,
+        # two different entities with the same name would replace each other
+        # (identifiers are not case sensitive in VHDL)
+        used_names = {}
+
+        for entity in entities:
+            other = used_names.setdefault(entity.name().lower(), entity)
+            assert (
+                other is entity
+            ), f"two different entities are named '{entity.name()}' and '{other.name()}'"
 
         return Library(
             top_entity,
